@@ -113,12 +113,12 @@ Act ==
      ELSE IF k = "close" THEN Close /\ bad' = bad
      ELSE IF k = "release" THEN Release /\ bad' = bad
      ELSE IF k = "gatefire" THEN (IF gate.armed THEN GateFireT /\ bad' = bad ELSE Drift("gate.fire but no gate armed", gate, t.st.gate))
-     ELSE IF k = "open" THEN (IF opens > 0 /\ retry = 0 THEN TableGameOpen /\ bad' = bad ELSE Drift("tableGameOpen not enabled", <<opens, retry>>, 0))
-     ELSE IF k = "retry" THEN (IF retry > 0 THEN OpenRetry /\ bad' = bad ELSE Drift("open.retry but the model is not retrying", retry, 0))
+     ELSE IF k = "open" THEN (IF opens > 0 /\ retry = 0 /\ ~win.on THEN TableGameOpen /\ bad' = bad ELSE Drift("tableGameOpen not enabled", <<opens, retry>>, 0))
+     ELSE IF k = "retry" THEN (IF retry > 0 /\ ~win.on THEN OpenRetry /\ bad' = bad ELSE Drift("open.retry but the model is not retrying", retry, 0))
      ELSE IF k = "swap" THEN (IF win.on THEN OpenSwap /\ bad' = bad ELSE Drift("open.swap without a prepared clone", win, 0))
      ELSE IF k = "publish" THEN Publish /\ bad' = bad
      ELSE IF k = "settle" THEN
-          (IF hand = "live"
+          (IF hand = "live" /\ dealt # {}
            THEN LET kp == {p \in dealt : ObsChips(t.st)[p]} IN
                 SettleAndReset(IF kp = {} THEN dealt ELSE kp) /\ bad' = bad
            ELSE Drift("settlement without a live hand", hand, ObsHand(t.st)))
